@@ -174,6 +174,8 @@ def c16(A, ctx, tier):
     degenerate.r_div(A, ctx, dict(floor=3, py_level_strict=True), where=where, rule="R-DIV-ALPHAMAX")
     control.r_cert(A, ctx, dict(exempt=EX01, floor=6), rule="R-CERT-INTERCEPT", clauses=("intercept",))
     penalgebra.r_alphamax(A, ctx, dict(floor=4))
+    extents.r_idx(A, ctx, dict(floor=3, floor_typed=3), rule="R-IDX-ALPHAMAX",
+                  select=lambda f: f.name == "alpha_max" or f.name.startswith("_alpha_max"))
     ctx.assume("that a fit slightly below alpha_max is non-zero is numerical and not decided")
     return dict(explanation="critical strength: alpha_max helpers exclude zero weights "
                 "before dividing; a solver that fits an intercept cannot exit at w = 0 "
@@ -245,6 +247,8 @@ def c08(A, ctx, tier):
 def c09(A, ctx, tier):
     formulas.r_lipc(A, ctx, dict(floor=12))
     formulas.r_sib(A, ctx, dict(floor=12), only=("lipschitz",))
+    extents.r_idx(A, ctx, dict(floor=10, floor_typed=10), rule="R-IDX-LIPSCHITZ",
+                  select=lambda f: "lipschitz" in f.name)
     ctx.assume("accuracy of the power method in spectral_norm is numerical and not decided; "
                "spectral norms are opaque atoms keyed by the matrix they are taken of")
     return dict(explanation="coordinate / group / global Lipschitz constants are lifted and "
